@@ -287,7 +287,7 @@ theorem inRolling_progress (w : World) (old ns : Rollout) (s os : Sub) (wl : WL)
 /-- how a reconcile of a rolling rollout with a readable workload that moves the status out of `StepInit` /
     `StepUpgrade` (to a later sub-state up to `StepMetricsAnalysis`) is computed: by one `runCanary` round on the
     rollout's own configuration -/
-theorem reconcile_progress (w : World) (r : StepResult) (h : reconcile w = .val r) (os s' : Sub) (wl : WL)
+theorem reconcile_progress_core (w : World) (r : StepResult) (h : reconcileCore w = .val r) (os s' : Sub) (wl : WL)
     (hos : w.ro.sub = some os) (hs' : r.w.ro.sub = some s') (hw : w.wl = some wl)
     (hnow : inRollingNow w.ro = true) (hcons : wl.consistent = true)
     (hfrom : os.state = .init ∨ os.state = .upgrade)
@@ -298,7 +298,7 @@ theorem reconcile_progress (w : World) (r : StepResult) (h : reconcile w = .val 
   unfold inRollingNow at hnow
   simp only [Bool.and_eq_true, decide_eq_true_eq, Bool.not_eq_true'] at hnow
   obtain ⟨⟨hph, hr⟩, hndel⟩ := hnow
-  obtain ⟨ns, s, hsame, hs, hcore, hreason, hrec⟩ := reconcile_inRolling w wl os hph hr hw hcons hos
+  obtain ⟨ns, s, hsame, hs, hcore, hreason, hrec⟩ := reconcile_inRolling_core w wl os hph hr hw hcons hos
   simp only [subCore, Prod.mk.injEq] at hcore
   obtain ⟨c1, _, c3, _⟩ := hcore
   rw [hrec] at h
@@ -323,7 +323,7 @@ theorem reconcile_progress (w : World) (r : StepResult) (h : reconcile w = .val 
     the stable Service exists and selects the stable revision afterwards.  For a canary-style rollout
     (`realPartition = false`) whatever the step's replicas; for a partition-style one unless the step replaces every
     stable pod (the case of `full_step_unpins_first`). -/
-theorem first_step_pins_stable (w : World) (r : StepResult) (h : reconcile w = .val r) :
+theorem first_step_pins_stable_core (w : World) (r : StepResult) (h : reconcileCore w = .val r) :
     firstStepPinsStable w r = true := by
   unfold firstStepPinsStable
   cases hos : w.ro.sub with
@@ -340,7 +340,7 @@ theorem first_step_pins_stable (w : World) (r : StepResult) (h : reconcile w = .
   · rename_i hc
     obtain ⟨hnow, hrr, hhas, hcons, hinit, hleft, hcur, hfirst⟩ := hc
     obtain ⟨c0, c', err, hrun, hsame, hwl, hidx, hst, hsub, hnet⟩ :=
-      reconcile_progress w r h os s' wl hos hs' hw hnow hcons (Or.inl hinit) hleft
+      reconcile_progress_core w r h os s' wl hos hs' hw hnow hcons (Or.inl hinit) hleft
         (by rw [hinit]; rcases hleft with h1 | h1 | h1 <;> rw [h1] <;> simp)
     unfold pinnedFirstStep at hfirst
     split at hfirst
@@ -513,7 +513,7 @@ theorem runCanary_bypass (c0 c' : Ctx) (err : Bool) (h : runCanary c0 = .ok c' e
 /-- **C03 / C04 (whole reconcile)** — for every world with a readable workload: a reconcile that takes a rolling
     rollout from `StepInit` / `StepUpgrade` straight to `StepMetricsAnalysis` (the step's traffic routing is skipped)
     is a reconcile of a partition-style canary rollout; a canary-style rollout always passes `StepTrafficRouting`. -/
-theorem bypass_partition_only (w : World) (r : StepResult) (h : reconcile w = .val r) :
+theorem bypass_partition_only_core (w : World) (r : StepResult) (h : reconcileCore w = .val r) :
     bypassPartitionOnly w r = true := by
   unfold bypassPartitionOnly
   cases hos : w.ro.sub with
@@ -530,7 +530,7 @@ theorem bypass_partition_only (w : World) (r : StepResult) (h : reconcile w = .v
   · rename_i hc
     obtain ⟨hnow, hrr, hcons, hfrom, hto⟩ := hc
     obtain ⟨c0, c', err, hrun, hsame, hwl, hidx, hst, hsub, hnet⟩ :=
-      reconcile_progress w r h os s' wl hos hs' hw hnow hcons hfrom (Or.inr (Or.inr hto))
+      reconcile_progress_core w r h os s' wl hos hs' hw hnow hcons hfrom (Or.inr (Or.inr hto))
         (by rw [hto]; rcases hfrom with hf | hf <;> rw [hf] <;> simp)
     have hb := runCanary_bypass c0 c' err hrun (by rw [hst]; exact hfrom) (by rw [hsub]; exact hto)
     rw [hsame.2.2.1, hsame.2.2.2.2.2.2.2.2.2] at hb
@@ -690,7 +690,7 @@ theorem runCanary_podHash (c0 c' : Ctx) (err : Bool) (h : runCanary c0 = .ok c' 
 /-- **C03 (whole reconcile)** — for every world with a readable workload: a reconcile that finds the step's pods ready
     (status from `StepInit` / `StepUpgrade` to `StepTrafficRouting` / `StepMetricsAnalysis`) records the workload's
     `PodTemplateHash` as reported by the finder in this very reconcile. -/
-theorem upgrade_records_pod_hash (w : World) (r : StepResult) (h : reconcile w = .val r) :
+theorem upgrade_records_pod_hash_core (w : World) (r : StepResult) (h : reconcileCore w = .val r) :
     upgradeRecordsPodHash w r = true := by
   unfold upgradeRecordsPodHash
   cases hos : w.ro.sub with
@@ -707,7 +707,7 @@ theorem upgrade_records_pod_hash (w : World) (r : StepResult) (h : reconcile w =
   · rename_i hc
     obtain ⟨hnow, hrr, hcons, hfrom, hto⟩ := hc
     obtain ⟨c0, c', err, hrun, hsame, hwl, hidx, hst, hsub, hnet⟩ :=
-      reconcile_progress w r h os s' wl hos hs' hw hnow hcons hfrom
+      reconcile_progress_core w r h os s' wl hos hs' hw hnow hcons hfrom
         (by rcases hto with hx | hx
             · exact Or.inr (Or.inl hx)
             · exact Or.inr (Or.inr hx))
@@ -716,5 +716,32 @@ theorem upgrade_records_pod_hash (w : World) (r : StepResult) (h : reconcile w =
     rw [hsub, hwl] at hb
     simp [hb]
   · rfl
+
+/-! ### the whole reconcile (body + cursor reset, see `RV.Props.Reconcile`, section Transfer) -/
+
+theorem firstStepPinsStable_reset (w : World) (r : StepResult) : firstStepPinsStable w (resetOnExit w r) = firstStepPinsStable w r := by
+  unfold firstStepPinsStable; reset_frame
+  cases w.ro.sub <;> cases r.w.ro.sub <;> cases w.wl <;> rfl
+
+theorem bypassPartitionOnly_reset (w : World) (r : StepResult) : bypassPartitionOnly w (resetOnExit w r) = bypassPartitionOnly w r := by
+  unfold bypassPartitionOnly; reset_frame
+  cases w.ro.sub <;> cases r.w.ro.sub <;> cases w.wl <;> rfl
+
+theorem upgradeRecordsPodHash_reset (w : World) (r : StepResult) :
+    upgradeRecordsPodHash w (resetOnExit w r) = upgradeRecordsPodHash w r := by
+  unfold upgradeRecordsPodHash; reset_frame
+  cases w.ro.sub <;> cases r.w.ro.sub <;> cases w.wl <;> rfl
+
+/-- **C03.iv (whole reconcile)** — see `first_step_pins_stable_core` -/
+theorem first_step_pins_stable (w : World) (r : StepResult) (h : reconcile w = .val r) : firstStepPinsStable w r = true :=
+  transfer firstStepPinsStable firstStepPinsStable_reset first_step_pins_stable_core w r h
+
+/-- **C03 / C04 (whole reconcile)** — see `bypass_partition_only_core` -/
+theorem bypass_partition_only (w : World) (r : StepResult) (h : reconcile w = .val r) : bypassPartitionOnly w r = true :=
+  transfer bypassPartitionOnly bypassPartitionOnly_reset bypass_partition_only_core w r h
+
+/-- **C03 (whole reconcile)** — see `upgrade_records_pod_hash_core` -/
+theorem upgrade_records_pod_hash (w : World) (r : StepResult) (h : reconcile w = .val r) : upgradeRecordsPodHash w r = true :=
+  transfer upgradeRecordsPodHash upgradeRecordsPodHash_reset upgrade_records_pod_hash_core w r h
 
 end RV.Props.CanaryStyle
